@@ -141,7 +141,7 @@ func init() {
 	core.Register(&core.Prop{
 		ID:    "C14",
 		Level: "fault_enumeration",
-		Rule: "single-fault enumeration at the store boundary: a history (cases of the C01 situation matrix, handle scripts of the C02 matrix, seeded random histories) first runs fault-free on keyvalue.FS over (a) the harness's plain Store (serial fallback path) and (b) the real mem TransactionStore behind a wrapper that reports injected failures the way real stores do (Transaction()/Commit: returned error; Get/Set inside a transaction: that operation's OpResult.Err; lazy Data()/ReadDirNames(): returned error) while the store-level calls are counted (N); it is then re-run N times with call k failing with a distinct non-sentinel error. " +
+		Rule: "single-fault enumeration at the store boundary: a history (cases of the C01 situation matrix, handle scripts of the C02 matrix, seeded random histories) first runs fault-free on keyvalue.FS over (a) the harness's plain Store (serial fallback path) and (b) the real mem TransactionStore behind a wrapper that reports injected failures the way real stores do (Transaction()/Commit: returned error; Get/Set inside a transaction: that operation's OpResult.Err; lazy Data()/ReadDirNames(): returned error) while the store-level calls are counted (N); it is then re-run N times with call k failing with a distinct non-sentinel error (in further cases with one of seven other values: wrapping context.Canceled / DeadlineExceeded / ErrClosed / ErrPermission / io.EOF, io.ErrUnexpectedEOF, and ErrNotExist for a found record's contents load); a third shape is a transactional store that reports a rejected Get/Set only as Commit's error, with clean per-call results. " +
 			"The operation during which the fault fired must return a non-nil error and must not panic; every remaining operation (also on handles opened before) must return without panic or hang; afterwards Stat/ReadDir/ReadFile of every path through the faulted FS must equal what a fresh keyvalue.FS over the same store shows. Non-trivial: fault runs in which the fault fired inside a mutating operation; distinct by (shape, history, fault index)",
 		Assumptions: []string{"one fault per run", "the S3 example store cannot be built offline; the plain-Store path is exercised with a harness store patterned on it"},
 		NumCases:    func(env *core.Env) int { return len(c14cases(env)) },
